@@ -33,7 +33,7 @@ Variable src : @source json.
 Variable vp : list (vertex P).
 Variable tr : @tracecfg json.
 
-Hypothesis ev_ok : forall p m, wf m ->
+Hypothesis ev_ok : forall p m, In (VPred p) vp -> wf m ->
   (fst (ev p m tr) = fst (sev p (abs m)) /\
    map abs_ev (snd (ev p m tr)) = proj (tracing tr) (snd (sev p (abs m)))) \/
   (exists e, fst (ev p m tr) = Exn e /\ budget_exn e = true).
